@@ -35,6 +35,7 @@ def check(run):
         run.guard("C05.2.bucket-preservation", cfg, lambda: rule_bucket(run, F, cfg))
         run.guard("C05.3.what-is-optimised", cfg, lambda: rule_what(run, F, cfg))
         run.guard("C05.4.disjunction", cfg, lambda: rule_disjunction(run, F, cfg))
+        run.guard("C05.5.part-iterator", cfg, lambda: rule_part_iterator(run, F, cfg))
         from . import C06 as _C06c
         bc = run.borrow("C06", only=r"optimize|key-is-rule-address|evictors", why="explicit optimisation re-allocates the rules: compiled regexes cached under the old addresses must be dropped, in every build configuration")
         run.guard("C05.via.C06.3.cache-key-validity", cfg, lambda: _C06c.rule_cache_key(bc, F, cfg))
@@ -439,3 +440,111 @@ def rule_disjunction(run, F, cfg):
     run.ob("C05.4.disjunction", "all-patterns-to-set", ok,
            "the RegexSet builder receives the vector of all per-pattern regexes (not a joined string)",
            site=cr.loc(sb[0][0]) if sb else "", config=cfg)
+
+
+FPI = "filters::network::FilterPartIterator<'a>"
+
+
+def rule_part_iterator(run, F, cfg):
+    """The pattern list of a (fused) rule is handed to every leaf matcher as a `FilterPartIterator`. The leaves ask it
+    two things: `len() == 0` (no pattern: the rule matches any URL) and `any(..)` over what `next()` yields. Decided on
+    the three functions as tables over the variant of the part and the two comparisons of the cursor:
+      iter(): the cursor starts at 0 on the part itself (the only construction of the iterator in the crate);
+      next(): Empty -> None; Simple(s) -> Some(s) exactly when the cursor is 0; AnyOf(v) -> Some(v[cursor]) exactly
+              while cursor < v.len(); every Some advances the cursor by one, no None moves it;
+      len():  0 / 1 / v.len().
+    A cursor that starts at 1, advances by two, stops at len - 1 or a len() of 0 for Simple loses patterns of a fused
+    rule (or turns a rule into match-all) without any leaf matcher changing."""
+    from analysis.pathinterp import enumerate_paths, path_value
+    rid = "C05.5.part-iterator"
+    variants = [v["name"] for v in F.adt("filters::network::FilterPart")["variants"]]
+    nxt = F.fn(f"<{FPI} as std::iter::Iterator>::next")
+    ln = F.fn(f"<{FPI} as std::iter::ExactSizeIterator>::len")
+    run.touched(nxt)
+    run.touched(ln)
+
+    def vname(conds):
+        for e, v in conds:
+            if re.match(r"^discr\(arg:self\.filter_part\)$", e) and isinstance(v, int) and v < len(variants):
+                return variants[v]
+        return None
+
+    rows = []
+    for p in enumerate_paths(nxt):
+        if p.end != "return":
+            continue
+        var = vname(p.conds)
+        payload = None
+        writes = []
+        for b in p.blocks:
+            for s in nxt.blocks[b]["s"]:
+                if s["k"] != "assign":
+                    continue
+                if s["pl"]["p"]:
+                    writes.append((nxt._apply_proj("_%d" % s["pl"]["l"], s["pl"]["p"]), nxt.expr_rvalue(s["rv"])))
+                elif s["rv"]["k"] == "agg" and str(s["rv"].get("adt", "")).endswith("Option") and s["rv"]["ops"]:
+                    payload = nxt.expr_operand(s["rv"]["ops"][0])
+        ret = path_value(nxt, p, 0) or ""
+        is_some = "Option::Some" in ret or (payload is not None and "None" not in ret)
+        other = {e: v for e, v in p.conds if not e.startswith("discr(arg:self.filter_part)")}
+        rows.append((var, other, is_some, payload if is_some else None, writes))
+    run.floor(rid, f"return paths of FilterPartIterator::next [{cfg}]", len(rows), 5)
+    adv = [("_1.index", "(arg:self.index AddWithOverflow 1).0")]
+    bad = []
+    seen_some = set()
+    for var, other, is_some, payload, writes in rows:
+        if var is None:
+            bad.append(("a path that does not depend on the variant", other))
+            continue
+        conds = sorted(other.items())
+        if not is_some:
+            want = {"Empty": [[]],
+                    "Simple": [[("(arg:self.index Eq 0)", 0)]],
+                    "AnyOf": [[("(arg:self.index Lt std::vec::Vec::len(arg:self.filter_part@AnyOf.0))", 0)],
+                              [("(arg:self.index Ge std::vec::Vec::len(arg:self.filter_part@AnyOf.0))", 1)]]}[var]
+            if conds not in want or writes:
+                bad.append((f"{var}: None", conds, writes))
+            continue
+        seen_some.add(var)
+        if writes != adv:
+            bad.append((f"{var}: the cursor is not advanced by exactly one", writes))
+        if var == "Simple":
+            if conds != [("(arg:self.index Eq 0)", 1)] or not re.search(r"arg:self\.filter_part@Simple\.0\b", payload or ""):
+                bad.append(("Simple: Some", conds, payload))
+        elif var == "AnyOf":
+            okc = conds in ([("(arg:self.index Lt std::vec::Vec::len(arg:self.filter_part@AnyOf.0))", 1)],
+                            [("(arg:self.index Ge std::vec::Vec::len(arg:self.filter_part@AnyOf.0))", 0)])
+            if not okc or not re.search(r"index\(arg:self\.filter_part@AnyOf\.0, arg:self\.index\)", payload or ""):
+                bad.append(("AnyOf: Some", conds, payload))
+        else:
+            bad.append(("Empty yields a pattern", conds, payload))
+    if seen_some != {"Simple", "AnyOf"}:
+        bad.append(("variants that yield patterns", sorted(seen_some)))
+    run.ob(rid, "next:table", not bad,
+           "FilterPartIterator::next yields nothing for Empty, the one pattern of Simple exactly when the cursor is 0, "
+           "element [cursor] of AnyOf exactly while cursor < len, and moves the cursor by one with every pattern it yields "
+           f"(so `any` over the iterator sees every pattern of a fused rule once); deviations: {bad[:3]}",
+           site=nxt.loc(0), config=cfg)
+    # len()
+    lrows = {}
+    for p in enumerate_paths(ln):
+        if p.end == "return":
+            lrows[vname(p.conds)] = path_value(ln, p, 0)
+    lok = (lrows.get("Empty") == "0" and lrows.get("Simple") == "1"
+           and re.match(r"^std::vec::Vec::len\(.*@AnyOf\.0\)$", lrows.get("AnyOf") or "") is not None and len(lrows) == 3)
+    run.ob(rid, "len:table", lok,
+           "the iterator's len() is 0 for Empty, 1 for Simple and the vector's length for AnyOf: the leaf matchers treat "
+           f"`len() == 0` as `the rule has no pattern and matches every URL` (found {lrows})", site=ln.loc(0), config=cfg)
+    # constructions
+    cons = []
+    for f in F.fns.values():
+        if f.j.get("kind") == "Derive" or "as std::clone::Clone>::clone" in f.name:
+            continue
+        for b, i, s in f.statements():
+            if s["k"] == "assign" and s["rv"]["k"] == "agg" and str(s["rv"].get("adt", "")).endswith("FilterPartIterator"):
+                cons.append((f.name, f.expr_rvalue(s["rv"]), f.loc(b, i)))
+    want = "filters::network::FilterPartIterator::FilterPartIterator{filter_part: arg:self, index: 0}"
+    cok = len(cons) >= 1 and all(n == "filters::network::FilterPart::iter" and e == want for n, e, _ in cons)
+    run.ob(rid, "starts-at-zero", cok,
+           "the only construction of the iterator is FilterPart::iter(), with the cursor at 0 on the part itself "
+           f"(found {[(n, e[-60:]) for n, e, _ in cons][:3]})", site=cons[0][2] if cons else nxt.loc(0), config=cfg)
